@@ -68,15 +68,18 @@ type Thread struct {
 	started bool
 	aborted bool
 	holds   []string
+	vc      VC // vector clock (race detection)
 }
 
 type chanState struct {
 	keep      interface{} // keeps the real channel alive so that its address is not reused within the execution
-	cap       int // logical capacity
-	n         int // logical items in buffer (buffered channels)
+	cap       int         // logical capacity
+	n         int         // logical items in buffer (buffered channels)
 	closed    bool
 	committed int // unbuffered: items sent but not yet picked up by the committed receiver
 	name      string
+	vcq       []VC // vector clocks of the messages in flight
+	closeVC   VC
 }
 
 // Chooser decides at every choice point.  n>=2 alternatives; kind is "sched"
@@ -102,6 +105,7 @@ type World struct {
 	Livelock bool
 	userData map[string]interface{}
 	ender    *Thread
+	race     *raceState
 }
 
 var w *World // the single world of this process (one execution at a time)
@@ -461,7 +465,14 @@ func Go(f func()) {
 	checkG()
 	t := &Thread{ID: len(w.threads), wake: make(chan struct{}), exited: make(chan struct{}), Name: callerPos(2)}
 	t.op = pendingOp{kind: opStart, committed: -1, pos: t.Name}
+	if RaceDetect {
+		t.vc = w.cur.vc.copy()
+		w.cur.tick()
+	}
 	w.threads = append(w.threads, t)
+	if RaceDetect {
+		t.tick()
+	}
 	wd := w
 	go func() {
 		defer close(t.exited)
@@ -567,7 +578,16 @@ func Run(ch Chooser, trace bool, maxSteps int, body func()) Result {
 func Quiesce() { yield(pendingOp{kind: opQuiesce}) }
 
 // Join blocks the calling thread until every other thread has finished.
-func Join() { yield(pendingOp{kind: opJoin}) }
+func Join() {
+	yield(pendingOp{kind: opJoin})
+	if hbActive() {
+		for _, t := range w.threads {
+			if t.done {
+				w.cur.vc = join(w.cur.vc, t.vc)
+			}
+		}
+	}
+}
 
 // Alive returns descriptions of the threads (other than the caller) that have not finished.
 func Alive() []string {
